@@ -38,6 +38,8 @@ PINNED_ENV = {
     "LINES": "50",
     "NO_COLOR": "1",
     "TERM": "dumb",
+    "PYTHONWARNINGS": "ignore",
+    "PYTHONDONTWRITEBYTECODE": "1",
     GUARD: "1",
 }
 
@@ -267,7 +269,8 @@ def finish(ctx: Ctx, mod, replay_fn=None) -> int:
     agg = ctx.agg
     harness_errors = sorted(n for n in agg.notes if n.startswith("HARNESS-ERROR"))
     known = load_known(ctx.prop)
-    replay_dir = VERIF / "replays" / ctx.prop
+    out_root = VERIF if str(REPO) == "/repo" else VERIF / "scratch"
+    replay_dir = out_root / "replays" / ctx.prop
     unknown_lines = []
     known_hits: dict[str, int] = {}
     flaky = []
@@ -339,8 +342,8 @@ def finish(ctx: Ctx, mod, replay_fn=None) -> int:
         "wall_s": round(time.time() - ctx.t0, 2),
         "violations": n_viol,
     }
-    evdir = VERIF / "evidence"
-    evdir.mkdir(exist_ok=True)
+    evdir = out_root / "evidence"
+    evdir.mkdir(parents=True, exist_ok=True)
     evpath = evdir / f"{ctx.prop}.json"
     evpath.write_text(json.dumps(ev, indent=1, ensure_ascii=False, default=str) + "\n")
     validate_evidence(evpath)
